@@ -49,6 +49,8 @@ pub fn run_property(ctx: &Ctx) -> Option<Report> {
             r.assume("strings are at most 65,535 bytes; the sender's own digest leaves at least 100 bytes");
             r.assume("the reply is decoded by the independent decoder and compared with the sender's copies read through the public API");
             mtu::run(ctx, &mut r);
+            // what reaches the wire on the real transport: every emitted datagram is exactly one message
+            r.push(srv::udp_smoke(ctx));
             r.rule.push_str("; sub-check huge-digest: cases = (1..40 members whose node ids are padded so that the sender's own digest leaves 100..1,200 bytes, own key-values owed to the peer); non-trivial = every case (the reply is always truncated)");
             r
         }
@@ -208,7 +210,10 @@ pub fn replay_property(ctx: &Ctx, sub: &str, case: &serde_json::Value) -> SubRes
             "server-round-targets" => srv::replay_targets(ctx, sub, case),
             _ => select::replay(ctx, sub, case),
         },
-        "C07" => mtu::replay(ctx, sub, case),
+        "C07" => match sub {
+            "udp-loopback-smoke" => srv::udp_smoke(ctx),
+            _ => mtu::replay(ctx, sub, case),
+        },
         "C08" => wirecheck::replay(ctx, sub, case),
         "C14" => pairs::replay_c14(ctx, sub, case),
         "C18" => catchup::replay(ctx, sub, case),
